@@ -22,6 +22,7 @@ import (
 	"context"
 	"encoding/json"
 	"fmt"
+	"math"
 	"sync"
 	"sync/atomic"
 	"time"
@@ -202,7 +203,10 @@ func (ref *subConnRef) deCallEnded(callStarted time.Time) (deCalls uint32, lastR
 	if callStarted.Before(ref.lastResp) {
 		return ref.deCalls, ref.lastResp, false
 	}
-	ref.deCalls++
+	if ref.deCalls < math.MaxUint32 {
+		// Stop at the largest value instead of wrapping around to 0.
+		ref.deCalls++
+	}
 	return ref.deCalls, ref.lastResp, true
 }
 
